@@ -793,7 +793,9 @@ class _Ctx:
         wanted = callee.qualname in self.opts.inline_full or \
             ('<private>' in self.opts.inline_full and callee.name.startswith('_') and not callee.name.startswith('__')
              and callee.parent is None) or \
-            ('<private>' in self.opts.inline_full and self.w.is_new_function(callee))
+            ('<private>' in self.opts.inline_full and self.w.is_new_function(callee)) or \
+            ('<private>' in self.opts.inline_full and callee.parent is not None and callee.parent.qualname == self.fn.qualname
+             and not any(isinstance(y, (ast.Nonlocal, ast.Global)) for y in ast.walk(callee.node)))
         if not wanted or callee.qualname in self.inline_stack or callee.qualname == self.fn.qualname or \
                 callee.name in self.opts.no_full_inline:
             return None
@@ -882,7 +884,12 @@ class _Ctx:
         sub = _Ctx(self.w, callee, self.opts, self.inline_stack + (callee.qualname,),
                    root_types=self.root_types if self.root_types is not None else self.types)
         saved = dict(st.env)
-        st.env = dict(benv)
+        if callee.parent is not None and callee.parent.qualname == self.fn.qualname:
+            # a local closure: its free variables are the enclosing function's locals as they are now
+            st.env = dict(saved)
+            st.env.update(benv)
+        else:
+            st.env = dict(benv)
         outs = []
         for o in sub.block(callee.body, [st]):
             val = Const(None)
@@ -1213,6 +1220,17 @@ class _Ctx:
             return all(not (isinstance(x, App) and x.fn == '*') for x in items)
         if isinstance(it, TupleT) and 0 < len(it.items) <= 8 and plain(it.items):
             return list(it.items)
+        if isinstance(it, App) and it.fn == 'enumerate' and not it.kw and 1 <= len(it.args) <= 2 and \
+                (len(it.args) == 1 or (isinstance(it.args[1], Num) and isinstance(it.args[1].value, Fraction) and it.args[1].value.denominator == 1)):
+            # enumerate over a display written in place: the (position, element) pairs
+            inner = _Ctx._literal_items(it.args[0], allow_range)
+            if inner is not None:
+                start = int(it.args[1].value) if len(it.args) == 2 else 0
+                return [TupleT((Num(Fraction(start + i)), x)) for i, x in enumerate(inner)]
+        if isinstance(it, App) and it.fn == 'zip' and not it.kw and len(it.args) == 2:
+            a, b = _Ctx._literal_items(it.args[0], allow_range), _Ctx._literal_items(it.args[1], allow_range)
+            if a is not None and b is not None:
+                return [TupleT((x, y)) for x, y in zip(a, b)]
         if isinstance(it, Fresh) and it.kind == 'list' and it.detail is None and 0 < len(it.items) <= 8 and plain(it.items):
             return list(it.items)
         if allow_range and isinstance(it, App) and it.fn == 'range' and not it.kw and 1 <= len(it.args) <= 2 and \
@@ -1713,6 +1731,31 @@ class _Ctx:
                     return (owner.qualname, f)
         return None
 
+    def _property_chain(self, ci, attr):
+        """['model', 'random'] when `attr` is a property of `ci` whose getter is `return self.model.random` (plain fields only)."""
+        for m in self.prog.lookup_method(ci, attr):
+            if not m.is_property or m.is_setter or not m.params:
+                continue
+            body = [s for s in m.node.body if not (isinstance(s, ast.Expr) and isinstance(s.value, ast.Constant))]
+            if len(body) != 1 or not isinstance(body[0], ast.Return) or body[0].value is None:
+                return None
+            parts = []
+            cur = body[0].value
+            while isinstance(cur, ast.Attribute):
+                parts.append(cur.attr)
+                cur = cur.value
+            if not (isinstance(cur, ast.Name) and cur.id == m.params[0]) or len(parts) < 2:
+                return None
+            parts.reverse()
+            # every step must be a plain field (not another property) for the rewrite to be the same read
+            t = ('inst', ci)
+            for a_ in parts:
+                if t is None or t[0] != 'inst' or self.ti.field_owner(t[1], a_) is None:
+                    return None
+                t = self.ti.attr_type(t, a_)
+            return parts
+        return None
+
     def loc_of(self, expr: ast.expr, st: State) -> Optional[Tuple[str, str]]:
         """(owner class qualname, field) of the innermost instance field under `expr` (stripping subscripts)."""
         e = expr
@@ -2043,6 +2086,14 @@ class _Ctx:
                 # a view property `return self._x`: the field itself, at any inlining depth
                 p2 = Attr(base, pf[1])
                 return st.heap.get(p2, p2)
+            chain = self._property_chain(ci, e.attr)
+            if chain is not None:
+                # `return self.model.random`: the same path read through the receiver, at any inlining depth
+                cur = base
+                for a_ in chain:
+                    cur = Attr(cur, a_)
+                    cur = st.heap.get(cur, cur)
+                return cur
             for m in self.prog.lookup_method(ci, e.attr):
                 if m.is_property:
                     r = self.inline_call(m, base, [], {}, st, e)
@@ -2603,6 +2654,20 @@ class _Ctx:
                 recv = st.env.get(sn, Sym(sn))
             else:
                 recv = self.ev(f.value, st)
+        if tgt.kind == 'pkg' and len(tgt.funcs) == 1 and kw and '**' not in kw and tgt.via != 'ctor' and \
+                not any(isinstance(a, App) and a.fn == '*' for a in args):
+            # f(name=a, other=b) for leading positional parameters is f(a, b): rules read positions
+            c0 = tgt.funcs[0]
+            ps = list(c0.params)
+            if c0.cls is not None and not c0.is_static and c0.parent is None and ps and tgt.via in ('method', 'super', 'byname', 'local', 'static', 'class', ''):
+                if not (isinstance(f, ast.Name)):
+                    ps = ps[1:] if (not c0.is_static) else ps
+            moved = list(args)
+            kw2 = dict(kw)
+            while len(moved) < len(ps) and ps[len(moved)] in kw2:
+                moved.append(kw2.pop(ps[len(moved)]))
+            if len(moved) != len(args) and not any(k in ps[:len(moved)] for k in kw2):
+                args, kw = moved, kw2
         kwt = tuple(sorted(kw.items()))
         # ---- builtins with algebra
         if tgt.kind == 'builtin':
